@@ -146,6 +146,15 @@ func (u *Upstream) Close(ctx context.Context, opts ...UpstreamCloseOption) error
 }
 
 func (u *Upstream) closeWithError(ctx context.Context, causeError error, opts ...UpstreamCloseOption) error {
+	u.mu.RLock()
+	state := u.stateWithoutLock()
+	wireConn := u.wireConn
+	u.mu.RUnlock()
+	return u.closeWithState(ctx, causeError, state, wireConn, opts...)
+}
+
+// closeWithState sends the close request with a state snapshot taken by the caller under the stream lock.
+func (u *Upstream) closeWithState(ctx context.Context, causeError error, state *UpstreamState, wireConn *wire.ClientConn, opts ...UpstreamCloseOption) error {
 	defer u.cancel()
 	if u.isClosed() {
 		return nil
@@ -156,8 +165,7 @@ func (u *Upstream) closeWithError(ctx context.Context, causeError error, opts ..
 		v(&opt)
 	}
 
-	state := u.stateWithoutLock()
-	resp, err := u.wireConn.SendUpstreamCloseRequest(ctx, &message.UpstreamCloseRequest{
+	resp, err := wireConn.SendUpstreamCloseRequest(ctx, &message.UpstreamCloseRequest{
 		StreamID:            u.ID,
 		TotalDataPoints:     state.TotalDataPoints,
 		FinalSequenceNumber: state.LastIssuedSequenceNumber,
@@ -450,7 +458,7 @@ func (u *Upstream) flush(ctx context.Context) error {
 	}
 
 	if err := u.validateState(); err != nil {
-		u.closeWithError(u.ctx, err)
+		u.closeWithState(u.ctx, err, u.stateWithoutLock(), u.wireConn)
 		return err
 	}
 
